@@ -1494,6 +1494,18 @@ int32_t tls13ParseServerHello(ssl_t *ssl,
         ssl->err = SSL_ALERT_ILLEGAL_PARAMETER;
         return MATRIXSSL_ERROR;
     }
+    /* RFC 8446, 4.2.11: the suite the server selected must indicate the
+       hash the selected PSK is associated with. The key schedule (Early
+       Secret, binder, transcript) was started with the hash of the PSK. */
+    if (ssl->sec.tls13UsingPsk &&
+            (ssl->sec.tls13ChosenPsk == NULL ||
+             tls13GetPskHmacAlg(ssl->sec.tls13ChosenPsk) !=
+                 tls13CipherIdToHmacAlg(ssl->cipher->ident)))
+    {
+        ssl->err = SSL_ALERT_ILLEGAL_PARAMETER;
+        psTraceErrr("Selected ciphersuite does not match the PSK's hash\n");
+        return MATRIXSSL_ERROR;
+    }
 
     return MATRIXSSL_SUCCESS;
 }
